@@ -20,7 +20,7 @@ RULE = ("(encoder level, exhaustive) for eco-mode v1 and v2 groups x every prior
 ASSUMPTIONS = ["v1 groups carry no SoC and encode_discharge takes none: SoC is asserted for v2 ECO_CHARGE only",
                "a limit whose encoding is the all-ones 'no value' sentinel (65535) is outside the readable domain",
                "a setter that raises (e.g. ES with undecodable prior eco registers) has not 'succeeded': nothing is asserted then"]
-MUST = ["polls_between_setters", "encoder_roundtrips", "mode_roundtrips", "eco_charge_checked", "eco_discharge_checked", "groups_off_checked",
+MUST = ["same_mode_repeated", "setter_with_refused_write", "polls_between_setters", "encoder_roundtrips", "mode_roundtrips", "eco_charge_checked", "eco_discharge_checked", "groups_off_checked",
         "export_limit_roundtrips", "dod_roundtrips", "prior_nonempty_types", "es_modes", "et_745", "et_v1"]
 EXHAUSTIVE = {"quick": False, "thorough": False}
 
@@ -239,6 +239,51 @@ def e2e_part(spec, part):
                                     sim.setreg(a, val)
                                 else:
                                     sim.regs[a] = val
+            # the same emulated mode again with the same power and another SoC (group 1 already is that 24/7 group)
+            if OM.ECO_CHARGE in modes:
+                p = rnd.randrange(1, 101)
+                s1 = rnd.randrange(0, 101)
+                s2 = (s1 + rnd.randrange(1, 100)) % 101
+                for m, s_ in ((OM.ECO_CHARGE, s1), (OM.ECO_CHARGE, s2), (OM.ECO_DISCHARGE, s1), (OM.ECO_DISCHARGE, s2), (OM.ECO_CHARGE, s2)):
+                    try:
+                        await inv.set_operation_mode(m, p, s_)
+                    except Exception as e:      # noqa   (a setter that raises has not succeeded, e.g. undecodable prior group on ES)
+                        steps.append((m.name, "repeat-set-raised:" + type(e).__name__))
+                        continue
+                    try:
+                        got = await inv.get_operation_mode()
+                        g1 = await inv.read_setting("eco_mode_1")
+                    except Exception as e:      # noqa
+                        steps.append((m.name, "repeat-raised:" + type(e).__name__))
+                        part.violate(f"C19/{fam}/run-failed/{type(e).__name__}", f"{tagtxt}: repeated set_operation_mode({m.name}, {p}, {s_}): {e!r}", case)
+                        break
+                    part.count("same_mode_repeated")
+                    want_p = -p if m == OM.ECO_CHARGE else p
+                    if got != m:
+                        part.violate(f"C19/{fam}/mode-roundtrip/{m.name}", f"{tagtxt}: repeated set_operation_mode({m.name}, {p}, {s_}) then get = {got}", case)
+                    elif g1.get_power() != want_p:
+                        part.violate(f"C19/{fam}/eco-group-power/{m.name}", f"{tagtxt}: repeated {m.name} power {p}: group 1 decodes to {g1.get_power()}", case)
+                    elif v2 and m == OM.ECO_CHARGE and g1.soc != s_:
+                        part.violate(f"C19/{fam}/eco-group-soc", f"{tagtxt}: ECO_CHARGE(power {p}, soc {s_}) right after the same mode with another SoC: "
+                                                                 f"group 1 decodes to SoC {g1.soc}", case)
+            # a setter whose write the inverter refuses (busy / illegal value) has not succeeded: it must say so, or the getter must agree
+            if fam == "ET":
+                for reg, setter, getter, val in ((47510, inv.set_grid_export_limit, inv.get_grid_export_limit, rnd.randrange(1, 9000)),
+                                                 (45356, inv.set_ongrid_battery_dod, inv.get_ongrid_battery_dod, rnd.randrange(0, 100))):
+                    sim.exc_map[(6, reg)] = rnd.choice((3, 4, 6))
+                    try:
+                        await setter(val)
+                        claimed = True
+                    except g.InverterError:
+                        claimed = False
+                    del sim.exc_map[(6, reg)]
+                    part.count("setter_with_refused_write")
+                    if claimed:
+                        got = await getter()
+                        if got != val:
+                            part.violate(f"C19/{fam}/refused-write-reported-as-success",
+                                         f"{tagtxt}: the inverter refused the write to register {reg}, {setter.__name__}({val}) returned normally and the "
+                                         f"getter returns {got}", case)
             # export limit and DoD
             for x in [0, 1, 100, 4999, 10000, 65534] + [rnd.randrange(0, 65535) for _ in range(4)]:
                 await inv.set_grid_export_limit(x)
